@@ -70,7 +70,7 @@ func c09(r *rt.Run) {
 		r.Outcome(printed)
 		if kind != "" {
 			k2 := kind + "-" + family
-			r.Violate(k2, detail, map[string]any{"family": family, "key": oracle.Key(c), "printed": printed})
+			r.Violate(k2, detail+c09Zone, map[string]any{"family": family, "key": oracle.Key(c), "printed": printed, "zone": c09Zone})
 		}
 	}
 	// (a) strings
@@ -196,8 +196,25 @@ func c09(r *rt.Run) {
 	c09Clauses(r)
 	// (g) type expressions as bounds
 	c09Types(r)
+	// (h) configuration: the process-wide default timezone. Everything that can carry an instant (time and
+	// duration constants, the structured universe, every clause family) is round-tripped again under each zone.
+	for _, z := range c09Zones() {
+		ast.SetDefaultTimezone(z.loc)
+		c09Zone = " [default timezone " + z.name + "]"
+		for _, n := range []int64{math.MinInt64, -1, 0, 1, 999999999, 1000000000, 1000000001, 1700000000000000000, 1710052200000000000, math.MaxInt64} {
+			constCase(ast.Time(n), "time")
+			constCase(ast.Duration(n), "duration")
+		}
+		for _, u := range U {
+			constCase(u.C, "structured")
+		}
+		c09Clauses(r)
+		r.Add("timezone_configurations", 1)
+	}
+	ast.SetDefaultTimezone(time.UTC)
+	c09Zone = ""
 	r.Extra["distinct_nontrivial"] = r.Get("states")
-	r.Finish("strings: every single ASCII byte, all 2-strings over 15 critical characters, 3-strings over 7; bytes: every single byte, all pairs over 11; boundary ints/floats/times/durations; the structured constant universe; atoms; " +
+	r.Finish("every family that can carry an instant repeated under 3 non-UTC default timezones (fixed +05:30, -08:00, America/New_York); strings: every single ASCII byte, all 2-strings over 15 critical characters, 3-strings over 7; bytes: every single byte, all pairs over 11; boundary ints/floats/times/durations; the structured constant universe; atoms; " +
 		"every clause of the C04 space that parses plus temporal clauses (head annotations x operators x bounds); type expressions as bound declarations; each printed, parsed back and compared (constants after evaluation)")
 }
 
@@ -246,6 +263,24 @@ func clauseEq(a, b ast.Clause) string {
 	return ""
 }
 
+// c09Zone names the configured default timezone in reports ("" = UTC, the default).
+var c09Zone string
+
+type c09ZoneT struct {
+	name string
+	loc  *time.Location
+}
+
+// c09Zones: a zone with daylight saving (when the host has the zone database), fixed offsets on both sides of
+// UTC including a half-hour one.
+func c09Zones() []c09ZoneT {
+	zs := []c09ZoneT{{"+05:30", time.FixedZone("IST", 5*3600+1800)}, {"-08:00", time.FixedZone("PST", -8*3600)}}
+	if l, err := time.LoadLocation("America/New_York"); err == nil {
+		zs = append(zs, c09ZoneT{"America/New_York", l})
+	}
+	return zs
+}
+
 func c09ClauseCase(r *rt.Run, text string, family string) {
 	var detail string
 	parsedOK := false
@@ -282,7 +317,7 @@ func c09ClauseCase(r *rt.Run, text string, family string) {
 		return
 	}
 	if detail != "" {
-		r.Violate("clause-round-trip-"+family, detail, map[string]any{"clause": text, "family": family})
+		r.Violate("clause-round-trip-"+family, detail+c09Zone, map[string]any{"clause": text, "family": family, "zone": c09Zone})
 	}
 }
 
@@ -313,7 +348,7 @@ func c09ClauseAST(r *rt.Run, c1 ast.Clause, desc, family string) {
 		return
 	}
 	if detail != "" {
-		r.Violate("clause-round-trip-"+family, detail, map[string]any{"clause": c1.String(), "family": family})
+		r.Violate("clause-round-trip-"+family, detail+c09Zone, map[string]any{"clause": c1.String(), "family": family, "zone": c09Zone})
 	}
 }
 
